@@ -420,7 +420,13 @@ def check_property_lists(ctx, db, nullable, rule='R-NULL'):
         adv = any(is_assign(s) and s.child('rhs').k == 'MemberExpr' and s.child('rhs').n == 'next' and lvalue_key(s.child('lhs')) == lvalue_key(s.child('rhs').child('base')) and
                   lvalue_key(s.child('lhs')) not in ('v%d:%s' % (p['d'], p['n']) for p in f.params) for s in f.walk())
         term = any(is_assign(s) and s.child('lhs').k == 'MemberExpr' and s.child('lhs').n == 'next' and s.child('rhs').is_null_const() for s in f.walk())
-        ctx.check(tail and adv and term, 'R-COPY.list', qn + '/tail-append', f.loc(), 'copy appends at the tail (order preserved) and terminates the list')
+        # the same through a link pointer: `T** link = &head; ... *link = node; link = &node->next;`
+        sc = flow._strip_casts
+        links = {lvalue_key(sc(s.child('lhs'))) for s in f.walk() if is_assign(s) and s.op == '=' and sc(s.child('rhs')).k == 'UnaryOperator' and sc(s.child('rhs')).op == '&' and
+                 sc(sc(s.child('rhs')).child('sub')).k == 'MemberExpr' and sc(sc(s.child('rhs')).child('sub')).n == 'next'}
+        stores = {lvalue_key(sc(sc(s.child('lhs')).child('sub'))) for s in f.walk() if is_assign(s) and s.op == '=' and sc(s.child('lhs')).k == 'UnaryOperator' and sc(s.child('lhs')).op == '*'}
+        via_link = bool(links & stores)
+        ctx.check(((tail and adv) or via_link) and term, 'R-COPY.list', qn + '/tail-append', f.loc(), 'copy appends at the tail (order preserved) and terminates the list')
         deep = False
         for s in f.walk():
             if is_assign(s) and s.child('lhs').k == 'MemberExpr' and s.child('lhs').n == strf:
